@@ -46,7 +46,7 @@ MODELLED_NOT_VERIFIED = [
     "retain_taxa, filter_leaf_nodes and prune_subtree (unrooted: the oracle expects the induced subtree with its basal bifurcation "
     "collapsed, checks path lengths, leafset and split bitmasks from scratch); the multi-match by-label cases and "
     "prune_leaves_without_taxa now too (bylabelupd / upd … filter hastaxon); prune_taxa with taxa on internal nodes is judged against an "
-    "independent two-phase description for the flag settings (1,1), (1,0), (0,0); (0,1) has model correspondence and well-formedness only",
+    "independent two-phase description for all four flag settings ((0,1): a node goes iff it carries a pruned taxon and one of its children stays)",
 ]
 EXPLANATION = ("Theorems over all trees/predicates about the definitions drv_c08 runs. Mechanism = specification: prune_eq_restrict, "
                "prune_flags_eq_spec (only the loop half has a specification; the strike pass stands for itself) / prune_internal_flag_eq_restrict, filter_eq_restrict, filter_eq_restrictA / "
@@ -73,8 +73,13 @@ EXPLANATION = ("Theorems over all trees/predicates about the definitions drv_c08
                "AttributeError, result made of new objects each with a source reference); tie A bridges to Gen/C08Kernels: "
                "fold_table_is_latin1_lower, fold_ascii_is_toLower, labelMatch_equiv, labelMatch_spec, merge_kernels_are_addLen, "
                "wrapper_kernels_are_taxonFilter, wrappers_regenerated_eq_restrict, defaults_as_modelled, defaults_cover. "
+               "wave 2: strike_leaf_off_internal_on / prune_taxa_every_flag_setting (prune_taxa with leaf flag off + internal flag on: a node goes "
+               "iff it carries a pruned taxon and one of its children stays; strikeSpec now covers all four flag settings and the harness judges "
+               "the code against a from-scratch version of it), restrict_composes / prune_subtree_twice (a call with suppression declined followed "
+               "by a default call = one restriction of the original tree; no unary node survives). "
                "Harness only: source immutability across histories of operations on live objects, node/edge labels, types produced by "
-               "tree_factory/node_factory, prune_taxa with leaf flag off + internal flag on (no closed description), labels beyond code point 255.")
+               "tree_factory/node_factory, labels beyond code point 255. No equivalence theorem between the object-store model (extractHeap) and "
+               "the functional extractTree: they are tied by the per-case comparison of op extractheap only.")
 
 
 ROOT = {True: "R", False: "U", None: "N"}
@@ -1133,7 +1138,16 @@ def strike_survivors(src, P, fl, fi):
         return set(v for v in range(src.n) if not all(inp[w] for w in src.below(v)))
     if not fl and not fi:
         return set(range(src.n))
-    return None
+    # leaf flag off, internal flag on: a node goes iff it carries a pruned taxon and one of its children stays (leaves never go);
+    # decided bottom-up, then everything below a node that goes is gone with it
+    goes = {}
+    for v in src.postorder():
+        goes[v] = bool(inp[v] and any(not goes[c] for c in src.kids[v]))
+    gone = set()
+    for v in range(src.n):                  # pre-order numbering: parents first
+        if goes[v] or (src.par[v] >= 0 and src.par[v] in gone):
+            gone.add(v)
+    return set(range(src.n)) - gone
 
 
 def drop_taxonless(src, s1):
@@ -1149,8 +1163,7 @@ def drop_taxonless(src, s1):
 
 def flags_case(ctx, dendropy, case, pending):
     """prune_taxa with is_apply_filter_to_leaf_nodes / _internal_nodes on trees that carry taxa on internal nodes.  For the
-    flag settings with a closed description (both on, default, both off) the result is judged against that description
-    followed by "taxon-less leaves go"; leaf flag off + internal flag on: correspondence with the model and well-formedness."""
+    four flag settings the result is judged against an independent description of the first pass followed by "taxon-less leaves go"."""
     P = case["P"]
     src = Src(case["tree"])
     fl, fi = case["fl"], case["fi"]
@@ -1193,7 +1206,8 @@ def flags_case(ctx, dendropy, case, pending):
     if s1 is not None and got != want:
         ctx.fail("prune-flags", "prune_taxa(leaf flag %s, internal flag %s, taxa on internal nodes): result %s; removing %s and then taxon-less "
                  "leaves gives %s" % (fl, fi, render_nest(got), "every node carrying a pruned taxon with its subtree" if (fl and fi) else
-                                      ("the nodes whose whole subtree carries pruned taxa" if fl else "nothing"), render_nest(want)), case)
+                                      ("the nodes whose whole subtree carries pruned taxa" if fl else
+                                       ("every node that carries a pruned taxon and keeps a child" if fi else "nothing")), render_nest(want)), case)
         return
     pending.append((line, case, render_nest(got)))
 
